@@ -371,6 +371,23 @@ func emitPrimCases(w *caseWriter, r *rng, thorough bool) {
 			w.rpCase(p, all)
 		}
 	}
+	// wide fields: the property is for every width; pad runs longer than any internal block size
+	for _, n := range []int{17, 64, 200, 255, 256, 257, 300, 511, 512, 513, 1000, 1024, 1025, 4097} {
+		for _, left := range []bool{false, true} {
+			for _, pad := range []int{' ', 0, '0', 0xff} {
+				p := primSpec{Kind: "fixed", N: n, Pad: pad, Left: left}
+				for _, l := range []int{0, 1, 3, n - 257, n - 256, n - 1, n, n + 1} {
+					if l < 0 {
+						continue
+					}
+					out := w.wpCase(p, r.textWithPad(l, byte(pad)))
+					if out != nil {
+						w.rpCase(p, append(out, r.bytes(r.intn(3))...))
+					}
+				}
+			}
+		}
+	}
 	for _, pad := range []int{0x100 + 'x', 0xe9, 0x4e2d, 0x10ffff, 0x80, 0xff, 0x7f} {
 		for _, left := range []bool{false, true} {
 			p := primSpec{Kind: "fixed", N: 6, Pad: pad, Left: left}
@@ -575,12 +592,48 @@ func emitPrimExhaustive(w *caseWriter) {
 // ---------- service level ----------
 var algNames = []string{"CRC16", "CRC32", "SSE_BIN", "SZSE_BIN"}
 
+// how the buffer handed to Calc came to hold [data]: the result must not depend on it
+var calcHistories = []string{"exact", "window-of-larger-array", "reset-and-rewritten", "partly-consumed", "truncated"}
+
+func calcBuffer(data []byte, history string) *bytes.Buffer {
+	junk := func(n int) []byte {
+		b := make([]byte, n)
+		for i := range b {
+			b[i] = byte(0xa5 + 31*i)
+		}
+		return b
+	}
+	switch history {
+	case "window-of-larger-array":
+		arr := append(append([]byte{}, data...), junk(64)...)
+		return bytes.NewBuffer(arr[:len(data)])
+	case "reset-and-rewritten":
+		buf := bytes.NewBuffer(junk(len(data) + 40))
+		buf.Reset()
+		buf.Write(data)
+		return buf
+	case "partly-consumed":
+		buf := bytes.NewBuffer(append(junk(5), data...))
+		buf.Next(5)
+		return buf
+	case "truncated":
+		buf := bytes.NewBuffer(append(append([]byte{}, data...), junk(9)...))
+		buf.Truncate(len(data))
+		return buf
+	}
+	return bytes.NewBuffer(append([]byte{}, data...))
+}
+
 func calcService(name string, data []byte) (uint64, bool, []byte, int) {
+	return calcServiceH(name, data, "exact")
+}
+
+func calcServiceH(name string, data []byte, history string) (uint64, bool, []byte, int) {
 	svc, ok := codec.Get(name)
 	if !ok {
 		return 0, false, nil, 0
 	}
-	buf := bytes.NewBuffer(append([]byte{}, data...))
+	buf := calcBuffer(data, history)
 	var v uint64
 	switch s := svc.(type) {
 	case codec.ChecksumService[*bytes.Buffer, uint16]:
@@ -596,8 +649,12 @@ func calcService(name string, data []byte) (uint64, bool, []byte, int) {
 }
 
 func (w *caseWriter) ckCase(name string, data []byte) {
+	w.ckCaseH(name, data, calcHistories[w.n%len(calcHistories)])
+}
+
+func (w *caseWriter) ckCaseH(name string, data []byte, history string) {
 	op := fmt.Sprintf("CK\t%s\t%s", name, hex.EncodeToString(data))
-	v, ok, after, unread := calcService(name, data)
+	v, ok, after, unread := calcServiceH(name, data, history)
 	if !ok {
 		w.add("calc", op, "missing")
 		return
@@ -607,7 +664,7 @@ func (w *caseWriter) ckCase(name string, data []byte) {
 	if unread != len(data) || !bytes.Equal(after, data) {
 		state = fmt.Sprintf("changed:%d/%d", unread, len(data))
 	}
-	w.add("calc", op, fmt.Sprintf("ok\t%x\t%s", v, state))
+	w.add("calc/"+history, op, fmt.Sprintf("ok\t%x\t%s", v, state))
 }
 
 func emitCalcCases(w *caseWriter, r *rng, thorough bool) {
